@@ -28,3 +28,18 @@ def replay_mem(p,repo):
   if not r: print("the contract holds: NOT reproduced"); return 0
   for f in r: print("FAILED     :",f)
   return 1
+
+def replay_vcd(p,repo):
+  if repo not in sys.path: sys.path.insert(0,repo)
+  from zoo import run
+  r=run._vcdjob((repo,p['seed'],p['design'],p['body']))
+  print("check      : VCD / text-wave replay against the simulator"); print("design     :",p['design'],"seed",p['seed'])
+  if not r['failed']: print("the contract holds: NOT reproduced"); return 0
+  for f in r['failed']: print("FAILED     :",f)
+  return 1
+def replay_vcdsym(p,repo):
+  from zoo import vcdcheck
+  r=vcdcheck.check_symbols(repo)
+  if not r: print("symbols distinct: NOT reproduced"); return 0
+  for f in r: print("FAILED     :",f)
+  return 1
